@@ -22,6 +22,8 @@ type Config struct {
 	fireBudget int
 	MaxSteps   int
 	PermuteMaps bool
+	NoRaceCheck bool
+	NoSleep     bool
 	Overrides  map[string]string
 	SolverTimeoutMs int
 }
@@ -142,6 +144,7 @@ type Interp struct {
 	traceW     io.Writer
 
 	initPkg  *ssa.Package
+	cancelVC []int
 	sh       *Shared
 	entry    string
 	property string
@@ -197,7 +200,122 @@ func (in *Interp) noteBound(tag string, lo, hi int) {
 }
 func (in *Interp) noteParam(name string, v int) { in.local.params[name] = v }
 func (in *Interp) reach(label string)           { in.local.reached[label]++ }
-func (in *Interp) noteAccess(c *Cell, write bool) {}
+func (in *Interp) noteAccess(c *Cell, write bool) { in.noteAccessP(c, nil, write) }
+
+func isPrefix(a, b []int) bool {
+	if len(a) > len(b) {
+		return false
+	}
+	for i := range a {
+		if a[i] != b[i] {
+			return false
+		}
+	}
+	return true
+}
+
+// noteAccessP records an access to the sub-object of c at path; accesses to
+// overlapping paths (one a prefix of the other) by unordered goroutines conflict.
+func (in *Interp) noteAccessP(c *Cell, path []int, write bool) {
+	if in.cfg.NoRaceCheck || in.cur == nil || c == nil {
+		return
+	}
+	var exact *pathAcc
+	for _, pa := range c.accs {
+		if len(pa.path) == len(path) && isPrefix(pa.path, path) {
+			exact = pa
+			continue
+		}
+		if isPrefix(pa.path, path) || isPrefix(path, pa.path) {
+			in.checkOnly(&pa.log, write, c.tag)
+		}
+	}
+	if exact == nil {
+		exact = &pathAcc{path: append([]int(nil), path...)}
+		c.accs = append(c.accs, exact)
+	}
+	in.access(&exact.log, write, c.tag)
+}
+
+func (in *Interp) checkOnly(a *accessLog, write bool, what string) {
+	g := in.cur
+	if a.wG != nil && a.wG != g && a.wClock > g.clockOf(a.wG) {
+		in.raceFound(what, a.wG, a.wPos, g, write)
+	}
+	if write {
+		for rg, rc := range a.reads {
+			if rg != g && rc > g.clockOf(rg) {
+				in.raceFound(what, rg, "(read)", g, true)
+			}
+		}
+	}
+}
+
+func (in *Interp) noteMapAccess(m *MapObj, write bool) {
+	if in.cfg.NoRaceCheck || in.cur == nil || m == nil {
+		return
+	}
+	in.access(&m.acc, write, "map")
+}
+
+func (g *G) clockOf(o *G) int {
+	if o.num < len(g.vc) {
+		return g.vc[o.num]
+	}
+	return 0
+}
+
+func (in *Interp) tick(g *G) {
+	for len(g.vc) <= g.num {
+		g.vc = append(g.vc, 0)
+	}
+	g.vc[g.num]++
+}
+
+func joinVC(a, b []int) []int {
+	for len(a) < len(b) {
+		a = append(a, 0)
+	}
+	for i, v := range b {
+		if v > a[i] {
+			a[i] = v
+		}
+	}
+	return a
+}
+
+func (in *Interp) access(a *accessLog, write bool, what string) {
+	g := in.cur
+	me := g.clockOf(g)
+	if a.wG != nil && a.wG != g && a.wClock > g.clockOf(a.wG) {
+		in.raceFound(what, a.wG, a.wPos, g, write)
+	}
+	if write {
+		for rg, rc := range a.reads {
+			if rg != g && rc > g.clockOf(rg) {
+				in.raceFound(what, rg, "(read)", g, true)
+			}
+		}
+		a.wG, a.wClock, a.wPos = g, me, in.posString(in.curPos)
+		a.reads = nil
+	} else {
+		if a.reads == nil {
+			a.reads = map[*G]int{}
+		}
+		a.reads[g] = me
+	}
+}
+
+type raceSig struct{ msg string }
+
+func (in *Interp) raceFound(what string, og *G, opos string, g *G, write bool) {
+	kind := "read"
+	if write {
+		kind = "write"
+	}
+	panic(raceSig{fmt.Sprintf("unsynchronised shared access to %s: %s by goroutine %s at %s is not ordered after the access by goroutine %s at %s",
+		what, kind, g.name, in.posString(in.curPos), og.name, opos)})
+}
 
 func (in *Interp) permuteIter(it *MapIter) {
 	if !in.cfg.PermuteMaps || len(it.Order) < 2 || len(it.Order) > 3 {
@@ -692,6 +810,18 @@ func (ex *Explorer) handleOutcome(in *Interp, out PathOutcome) {
 		label := ex.property + "/stuck"
 		in.local.asserted[label]++
 		in.recordViolation(label, out.Msg+"\n"+out.Stacks, in.st.pc)
+	case "race":
+		label := "C15/data-race"
+		if ex.property == "C15" {
+			in.local.asserted[label]++
+			in.recordViolation(label, out.Msg+"\n"+out.Stacks, in.st.pc)
+		} else {
+			sh.mu.Lock()
+			if len(sh.incon) < 20 {
+				sh.incon = append(sh.incon, "data race (partial-order reduction assumes race freedom): "+out.Msg+"\n"+out.Stacks)
+			}
+			sh.mu.Unlock()
+		}
 	case "unsupported", "inconclusive":
 		sh.mu.Lock()
 		if len(sh.incon) < 20 {
